@@ -786,6 +786,19 @@ func c16(c *core.Ctx) {
 		c.EndRule()
 	}
 
+	// ---------------------------------------------------------------- R7
+	if c.Rule("R7", "a configured transport interceptor reaches the dispatch: each setter / option stores its own parameter, unchanged and on every path, into the interceptor field the dispatch reads (R5), of the object it returns or is applied to; options are applied once each, to the server itself, over the whole option list", 6) {
+		isInt := func(st *types.Named, f *types.Var) bool {
+			ts := core.TypeStr(f.Type())
+			return ts == grpcPkg+".UnaryServerInterceptor" || ts == grpcPkg+".StreamServerInterceptor"
+		}
+		configPlumbing(c, "inprocgrpc", isInt)
+		configPlumbing(c, "httpgrpc", isInt)
+		optionFanOut(c, "httpgrpc")
+		optionApplySteps(c, "httpgrpc")
+		c.EndRule()
+	}
+
 	// ---------------------------------------------------------------- R6
 	if c.Rule("R6", "per-entry closures in the decorator: literals created in the loops capture per-iteration cells only", 2) {
 		loopCaptureCheck(c, litHosts)
